@@ -576,6 +576,9 @@ func c19R5(c *Ctx) {
 						if !(a.isContainerish(v.Type()) || types.IsInterface(v.Type()) || isIfaceSlice(v.Type())) {
 							continue
 						}
+						if a.isSpine(v.Type()) && what == "value stored into a result container" {
+							continue // a spine handed to a helper of the spine type (pushAll(ego.val)): what is stored are its elements
+						}
 						n++
 						ob := c.Ob("C19.R5", a.FuncName(fn)+"/"+what+"@"+a.FuncName(f)+"#"+itoa(indexOfInstr(f, in)), in.Pos())
 						if o&oBARE != 0 || (o&oRECV != 0 && o&oVIAEGO == 0) {
